@@ -49,7 +49,7 @@ def one(b, rnd, stack, pkt, pd, rules, d, strat, klass, cm=None):
 def run(rep, tier, seed):
     rnd = rng_for(seed, 'C10')
     b = Batch(rep)
-    n = 150 if tier == 'quick' else 2000
+    n = 300 if tier == 'quick' else 3000
     for i in range(n):
         stack, pkt, st, pd = gen_parsed(rnd, STACKS[i % len(STACKS)])
         for k in range(2):
